@@ -35,6 +35,16 @@ def build_cases(ctx, n):
         for ser in ("flat", "general"):
             enc = rng.choice(list(R.ENCS))
             valid.append(E.build(rng, alg, enc, ser, b"attack at dawn", aad=rng.choice([None, b"aad"]), kn=E.key_name(alg, enc, rng), alg_in="recipient"))
+    # IVs that begin with zero octets (a counter-style nonce layout), for every content encryption: cutting the zeros off
+    # must not be the same IV to anybody
+    import os
+
+    def zero_led(n):
+        return b"\x00" * 4 + os.urandom(n - 4) if n >= 8 else os.urandom(n)
+    for enc in list(R.ENCS):
+        for ser in ("compact", "flat"):
+            alg = "dir" if ser == "compact" else "A256KW"
+            valid.append(E.build(rng, alg, enc, ser, b"pay 1000 EUR to account 42", kn=E.key_name(alg, enc, rng), rnd=zero_led))
     for alg, enc in (("A128KW", "A128GCM"), ("dir", "A128CBC-HS256"), ("RSA-OAEP", "A256GCM")):
         for ser in ("flat", "general"):
             valid.append(E.build(rng, alg, enc, ser, E.DEFLATE_LOOKING, aad=rng.choice([None, b"aad"]), kn=E.key_name(alg, enc, rng)))
